@@ -169,7 +169,13 @@ def check_custkey(case, rec):
         rec.cls("custkey.key-bytes-also-outside-slot")
     rec.nt()
     key, ck, pos, payload = case["key"], case["customer_key"], case["pos"], case["payload"]
-    e = B2.SoftwareCustKeyEncryptor(key, ck, pos)
+    if (ck[0] + pos) % 2:
+        # the customer key is configured AFTER construction through the public attributes ("with a customer key configured ...")
+        rec.cls("custkey.configured-after-construction")
+        e = B2.SoftwareCustKeyEncryptor(key)
+        e.customer_key, e.customer_key_pos = ck, pos
+    else:
+        e = B2.SoftwareCustKeyEncryptor(key, ck, pos)
     try:
         ct = e.encrypt(payload)
     except Exception as ex:
